@@ -678,25 +678,69 @@ def check_calendar_conversions(ctx):
     cls = get_class(t, 'KmipEngine')
     CONV = {'time.gmtime', 'time.localtime', 'time.ctime', 'datetime.datetime.fromtimestamp', 'datetime.datetime.utcfromtimestamp', 'datetime.fromtimestamp', 'datetime.utcfromtimestamp'}
     n = 0
-    for name, fn in sorted(methods(cls).items()):
+    from ..inline import flat_methods
+    from ..dataflow import node_of_expr
+
+    def clock(e):
+        e2 = e.args[0] if isinstance(e, ast.Call) and call_name(e) == 'int' and len(e.args) == 1 else e
+        return isinstance(e2, ast.Call) and call_name(e2) == 'time.time'
+    NEG = {'Lt': 'GtE', 'LtE': 'Gt', 'Gt': 'LtE', 'GtE': 'Lt'}
+    SWAP = {'Lt': 'Gt', 'LtE': 'GtE', 'Gt': 'Lt', 'GtE': 'LtE'}
+
+    def bounded(g, rd, node, r):
+        """the facts that hold at `node` keep the number named r within a constant distance below the server clock: clock >= r and clock - r < c"""
+        def is_clock(e_, at):
+            return clock(e_) or (isinstance(e_, ast.Name) and rd.values(at, e_.id) and all(isinstance(v, ast.AST) and clock(v) for v in rd.values(at, e_.id)))
+        lo = hi = False
+        for tt, lab in dominating_edges(g, node):
+            p = cmp_parts(tt.stmt)
+            if not p or p[1] not in NEG:
+                continue
+            op = p[1] if lab == 'T' else NEG[p[1]]
+            l_, r_ = p[0], p[2]
+            # clock ? r
+            if isinstance(l_, ast.Name) and isinstance(r_, ast.Name):
+                if l_.id == r and is_clock(r_, tt):
+                    l_, r_, op = r_, l_, SWAP[op]
+                if isinstance(r_, ast.Name) and r_.id == r and is_clock(l_, tt) and op in ('GtE', 'Gt'):
+                    lo = True
+            # (clock - r) ? c
+            if isinstance(l_, ast.BinOp) and isinstance(l_.op, ast.Sub) and isinstance(l_.right, ast.Name) and l_.right.id == r and is_clock(l_.left, tt) \
+                    and isinstance(r_, ast.Constant) and isinstance(r_.value, (int, float)) and op in ('Lt', 'LtE'):
+                hi = True
+        return lo and hi
+
+    def safe(g, rd, node, e, depth=0):
+        if e is None or clock(e):
+            return True
+        if not isinstance(e, ast.Name) or depth > 3:
+            return False
+        if bounded(g, rd, node, e.id):
+            return True
+        defs = rd.reaching(node, e.id)
+        if not defs:
+            return False
+        for var, val, dn in defs:
+            if dn is None or not isinstance(val, ast.AST):
+                return False                     # a parameter / unknown
+            if clock(val):
+                continue
+            if isinstance(val, ast.Name) and safe(g, rd, dn, val, depth + 1):
+                continue
+            return False
+        return True
+    for name, fn in sorted(flat_methods(cls)[0].items()):
         calls = [c for c in walk_local(fn) if isinstance(c, ast.Call) and (call_name(c) or '') in CONV]
         if not calls:
             continue
         g = CFG(fn)
         rd = ReachingDefs(g)
-        from ..dataflow import node_of_expr
         for c in calls:
             n += 1
             nd = node_of_expr(g, c)
             arg = c.args[0] if c.args else None
-            ok, why = False, ''
-            if arg is None:
-                ok, why = True, 'the current time'
-            def clock(e):
-                e2 = e.args[0] if isinstance(e, ast.Call) and call_name(e) == 'int' and len(e.args) == 1 else e
-                return isinstance(e2, ast.Call) and call_name(e2) == 'time.time'
-            if not ok and (clock(arg) or (isinstance(arg, ast.Name) and nd is not None and rd.values(nd, arg.id) and all(isinstance(v, ast.AST) and clock(v) for v in rd.values(nd, arg.id)))):
-                ok, why = True, 'the server clock'
+            ok = arg is None or (nd is not None and safe(g, rd, nd, arg))
+            why = 'the server clock, or a request value kept within a constant distance of it'
             if not ok and nd is not None:
                 for tr in nd.tries:
                     hs = set()
@@ -705,22 +749,6 @@ def check_calendar_conversions(ctx):
                         hs |= {(dotted(x) or '').split('.')[-1] if x is not None else 'BaseException' for x in ts_}
                     if hs & {'Exception', 'BaseException'} or {'OverflowError', 'ValueError'} <= hs:
                         ok, why = True, 'inside a try that catches the conversion errors'
-            if not ok and nd is not None and isinstance(arg, ast.Name):
-                # X within a constant distance of the clock: (now - X) < c  and  now >= X  on the dominating true edges
-                lo = hi = False
-                for tt, lab in dominating_edges(g, nd):
-                    if lab != 'T':
-                        continue
-                    p = cmp_parts(tt.stmt)
-                    if not p:
-                        continue
-                    txt = U(tt.stmt)
-                    if arg.id in txt and isinstance(p[2], ast.Constant) and p[1] in ('Lt', 'LtE') and isinstance(p[0], ast.BinOp) and isinstance(p[0].op, ast.Sub):
-                        hi = True
-                    if p[1] in ('GtE', 'Gt', 'LtE', 'Lt') and isinstance(p[0], ast.Name) and isinstance(p[2], ast.Name) and arg.id in (p[0].id, p[2].id):
-                        lo = True
-                if lo and hi:
-                    ok, why = True, 'bounded by the server clock on both sides'
             ctx.check(ok, 'C13.R17', 'KmipEngine.%s|%s(%s)' % (name, call_name(c), U(arg)[:30] if arg is not None else ''), '%s:%s KmipEngine.%s' % (ENGINE, c.lineno, name),
                       '%s converts %s' % (call_name(c), why),
                       '%s(%s) converts a number a request controls (any 64-bit Date-Time) without a bound or a try: OverflowError / OSError / ValueError for far-away dates is not a KMIP error - General Failure for a well-formed request' % (call_name(c), U(arg)[:40] if arg is not None else ''))
